@@ -159,6 +159,7 @@ def findings_for(prop):
 # ---------------------------------------------------------------- result object
 class Result:
     def __init__(self, prop, tier, seed, level='proof'):
+        self.replay_mode = False
         self.prop = prop
         self.tier = tier
         self.seed = seed
@@ -203,7 +204,9 @@ class Result:
                   wall_s=round(time.time() - self.t0, 2), violations=len(self.violations))
         ev['coverage']['known_findings_reported'] = list(self.known)
         ev['coverage'].update(self.notes)
-        (EVID / f'{self.prop}.json').write_text(json.dumps(ev, indent=1, default=str))
+        # a --replay run re-checks one recorded input: it must not overwrite the evidence of a full run
+        target = EVID / (f'{self.prop}.replay.json' if self.replay_mode else f'{self.prop}.json')
+        target.write_text(json.dumps(ev, indent=1, default=str))
         sys.stdout.flush()
         return 1 if self.violations else 0
 
